@@ -58,7 +58,7 @@ USERS = ['guest', 'alice', 'bob', 'carol', 'mallory']
 PASSWORDS = {'alice': b'pa', 'bob': b'pb'}
 KBD = {'alice': 'ka', 'bob': 'kb'}
 SIG_DEFECTS = ['right', 'wrong_session', 'wrong_user', 'wrong_service',
-               'wrong_key', 'garbage', 'truncated']
+               'wrong_key', 'garbage', 'truncated', 'empty', 'alg_only']
 
 _K = {}
 
@@ -263,10 +263,22 @@ def gen_cases(tier, seed):
     npos = 22 if tier == 'quick' else 220
     kinds = ['password', 'ed25519', 'ecdsa', 'rsa', 'cert', 'agent',
              'openssh_key', 'kbdint', 'password_otp_kbdint',
-             'password_pam_rounds', 'password_kbdint_prompt']
+             'password_pam_rounds', 'password_kbdint_prompt',
+             'agent_first_refuses', 'agent_refuses_local_key']
     for i in range(npos):
         cases.append({'kind': 'positive', 'cred': kinds[i % len(kinds)],
                       'cseed': rng.randrange(1 << 30)})
+    # only public information: a signed request whose signature is empty
+    for u, k in (('alice', 'A'), ('alice', 'R'), ('bob', 'B'), ('carol', 'C')):
+        for d in ('empty', 'alg_only'):
+            cases.append({'kind': 'history',
+                          'steps': [['pk_query', u, k],
+                                    ['pk_signed', u, k, d]],
+                          'pipelined': d == 'empty', 'gated': False,
+                          'release': 'fifo', 'gate_begin': False,
+                          'exec_order': 'eager', 'chunk': 'all',
+                          'cseed': 13})
+
     # half of the histories run against an application that installs keys
     # only for users that have some (the documented begin_auth pattern: a
     # missing per-user file is skipped), so that nothing but the library
@@ -432,6 +444,10 @@ def _build(peer, step, rng, sent):
         elif d == 'wrong_key':
             other = k['X'] if step[2] != 'X' else k['A']
             sig = other.sign(peer.publickey_signed_data(u, key))
+        elif d == 'empty':
+            sig = b''               # a signature string of length zero
+        elif d == 'alg_only':
+            sig = R.sstr(key.alg) + R.sstr(b'')
         elif d == 'garbage':
             sig = R.sstr(b'ssh-ed25519') + R.sstr(os.urandom(64))
         else:
@@ -1229,6 +1245,59 @@ def _run_positive(case, mon, viol):
                 base['agent_path'] = sock
                 base['client_keys'] = ()
                 conn = await asyncssh.connect('127.0.0.1', port, **base)
+            elif cred in ('agent_first_refuses', 'agent_refuses_local_key'):
+                # an agent that lists an authorized key but declines to sign
+                # with it (confirmation refused, token not touched): the
+                # next key - in the agent or a local one - is valid
+                sock = os.path.join(tmp, 'mini.sock')
+                refuser = user_keys['ed25519']
+                held = [refuser] + ([user_keys['ecdsa']]
+                                    if cred == 'agent_first_refuses' else [])
+                seen = {'sign': 0, 'refused': 0}
+
+                async def agent_conn(reader, writer):
+                    try:
+                        while True:
+                            n = int.from_bytes(await reader.readexactly(4),
+                                               'big')
+                            msg = await reader.readexactly(n)
+                            if msg[0] == 11:
+                                body = R.u32(len(held))
+                                for k in held:
+                                    body += R.sstr(k.public_data) + \
+                                        R.sstr(b'k')
+                                out = bytes([12]) + body
+                            elif msg[0] == 13:
+                                r = R.Reader(msg, 1)
+                                blob, data = r.str(), r.str()
+                                seen['sign'] += 1
+                                key = next((k for k in held
+                                            if k.public_data == blob), None)
+                                if key is None or key is refuser:
+                                    seen['refused'] += 1
+                                    out = bytes([5])
+                                else:
+                                    out = bytes([14]) + R.sstr(key.sign(
+                                        data, key.sig_algorithms[0]))
+                            else:
+                                out = bytes([5])
+                            writer.write(R.u32(len(out)) + out)
+                    except (asyncio.IncompleteReadError, OSError):
+                        pass
+                    writer.close()
+
+                mini = await asyncio.start_unix_server(agent_conn, sock)
+                try:
+                    base['agent_path'] = sock
+                    base['client_keys'] = () \
+                        if cred == 'agent_first_refuses' \
+                        else [user_keys['rsa']]
+                    conn = await asyncssh.connect('127.0.0.1', port, **base)
+                finally:
+                    mini.close()
+                    info['agent'] = dict(seen)
+                if not seen['refused']:
+                    info['note'] = 'the refusing key was never tried'
             elif cred == 'openssh_key':
                 if not openssh.SSH:
                     info['skipped'] = 'no ssh'
